@@ -68,6 +68,31 @@ static std::vector<std::string> pal_keys(const ykc::Shape& sh) {
     return v;
 }
 
+static Op mk(OpKind k, const std::string& key, int gen = 1) {
+    Op o;
+    o.kind = k;
+    o.key = key;
+    o.gen = gen;
+    return o;
+}
+static Op mkscan(const std::string& l, scan_endpoint le, const std::string& r, scan_endpoint re, std::size_t max, bool r2l, bool nv) {
+    Op o;
+    o.kind = SCAN;
+    o.key = l;
+    o.le = le;
+    o.rkey = r;
+    o.re = re;
+    o.max = max;
+    o.r2l = r2l;
+    o.want_nv = nv;
+    return o;
+}
+static std::set<std::string> initial_keys(const ykc::Shape& sh) {
+    std::set<std::string> init(sh.inserts.begin(), sh.inserts.end());
+    for (auto& r : sh.removes) init.erase(r);
+    return init;
+}
+
 static void family_lin(std::vector<hm::Scenario>& out, unsigned oracles) {
     auto shapes = ykc::all_shapes();
     shapes.push_back(ykc::shape_ifull());
@@ -111,6 +136,30 @@ static void family_lin(std::vector<hm::Scenario>& out, unsigned oracles) {
             }
         }
     }
+    // slot reuse (ABA): a reader of k races a writer that removes k and inserts another key into the freed slot,
+    // or removes and re-inserts k itself
+    for (auto& sh : shapes) {
+        if (sh.pal.count("in") == 0 || sh.name == "IFULL") continue;
+        std::vector<std::string> newkeys;
+        for (const char* nk : {"new", "new2", "long"}) {
+            if (sh.pal.count(nk) != 0) newkeys.push_back(sh.pal.at(nk));
+        }
+        std::vector<std::string> targets = {sh.pal.at("in")};
+        if (sh.pal.count("inL") != 0) targets.push_back(sh.pal.at("inL"));
+        if (sh.pal.count("only") != 0) targets.push_back(sh.pal.at("only"));
+        std::sort(targets.begin(), targets.end());
+        targets.erase(std::unique(targets.begin(), targets.end()), targets.end());
+        for (auto& k : targets) {
+            for (auto& nk : newkeys) {
+                add(out, "lin", sh, {{mk(GET, k)}, {mk(REMOVE, k), mk(PUT, nk, 2)}}, oracles, true, 2, 3);
+                add(out, "lin", sh, {{mk(REMOVE, k, 1)}, {mk(REMOVE, k), mk(PUT, nk, 2)}}, oracles, false, 2, 2);
+                add(out, "lin", sh, {{mk(PUT, k, 3)}, {mk(REMOVE, k), mk(PUT, nk, 2)}}, oracles, false, 2, 2);
+            }
+            add(out, "lin", sh, {{mk(GET, k)}, {mk(REMOVE, k), mk(PUT, k, 2)}}, oracles, true, 2, 3);
+            add(out, "lin", sh, {{mk(GET, k)}, {mk(PUT, k, 2), mk(REMOVE, k)}}, oracles, true, 2, 3);
+            add(out, "lin", sh, {{mk(UPUT, k, 3)}, {mk(REMOVE, k), mk(PUT, k, 2)}}, oracles, false, 2, 2);
+        }
+    }
     // three threads on one key (B3, L1one) and 2x2 programs
     for (const char* sn : {"B3", "L1one", "I2_1_8"}) {
         const ykc::Shape* sh = ykc::find_shape(shapes, sn);
@@ -128,31 +177,6 @@ static void family_lin(std::vector<hm::Scenario>& out, unsigned oracles) {
         add(out, "lin", *sh, {{rm, u}, {g, g}}, oracles, false, 2, 2);
         add(out, "lin", *sh, {{rm, p}, {p, g}}, oracles, false, 2, 2);
     }
-}
-
-static Op mk(OpKind k, const std::string& key, int gen = 1) {
-    Op o;
-    o.kind = k;
-    o.key = key;
-    o.gen = gen;
-    return o;
-}
-static Op mkscan(const std::string& l, scan_endpoint le, const std::string& r, scan_endpoint re, std::size_t max, bool r2l, bool nv) {
-    Op o;
-    o.kind = SCAN;
-    o.key = l;
-    o.le = le;
-    o.rkey = r;
-    o.re = re;
-    o.max = max;
-    o.r2l = r2l;
-    o.want_nv = nv;
-    return o;
-}
-static std::set<std::string> initial_keys(const ykc::Shape& sh) {
-    std::set<std::string> init(sh.inserts.begin(), sh.inserts.end());
-    for (auto& r : sh.removes) init.erase(r);
-    return init;
 }
 
 // writer operations that matter for a scanner on this shape: insert / update / remove on every palette key
